@@ -5,7 +5,7 @@ from common import *
 def sig_of(ev):
     s = ev["segs"]
     return {"entry": ev["entry"], "abs": ev["abs"], "dotdot": ".." in s, "dot": "." in s, "empty": "" in s,
-            "hit": ev["hit"] > 0}
+            "hit": ev["hit"] > 0, "dev": ev.get("dev", False)}
 
 def run(rep, tier, seed):
     wd = spec_scratch()
